@@ -148,7 +148,11 @@ pub fn gen_event(rng: &mut Rng, p: &Pools, eng: &Eng, kind: Option<u16>) -> SemE
     if kind == 1059 {
         // gift wraps name their recipient in a p tag (first, later, as a non-first value, or someone else)
         let target = hex(&rng.pick(&p.authors)[..]);
-        match rng.below(5) {
+        match rng.below(7) {
+            // values that are NOT the recipient's key although every index key built from them starts like it: the
+            // key followed by NUL bytes, by another digit, or cut short
+            5 => tags.push(vec!["p".into(), format!("{target}{}", "\u{0}".repeat(1 + rng.usize_below(3)))]),
+            6 => tags.push(vec!["p".into(), if rng.chance(1, 2) { format!("{target}0") } else { target[..63].to_string() }]),
             0 => tags.insert(0, vec!["p".into(), target]),
             1 => tags.push(vec!["p".into(), target]),
             2 => tags.push(vec!["p".into(), "relay-hint".into(), target]),
